@@ -71,3 +71,19 @@ package keeper
 //@   flag pure=IsOperator,GetOperatorPubKey,PublicKeyFromBytes,GetTaskInfo,GetAVSInfoByTaskAddress,GetEpochInfo,IsExistTaskResultInfo,GetTaskResultInfo,Keccak256Hash,UnmarshalTaskResponse,VerifySignature,FormatUint
 //@   before[C10.stri.self] prefix.Store).Set requires addr == old(info.OperatorAddress) && info.OperatorAddress == old(info.OperatorAddress)
 //@   ensures[C10.stri.self] err == nil ==> addr == old(info.OperatorAddress)
+
+// ---------------------------------------------------------------------------------------------
+// C20 (epoch-end statistics of a task are computed from that task's own results): the power list stored for a task has
+// exactly one entry per operator that signed THIS task (nothing carried over from a task processed earlier in the same
+// epoch end), and the signed-operator list is the one collected for it.
+//@ func (EpochsHooksWrapper).AfterEpochEnd
+//@   flag noframe
+//@   flag pure=GetTaskStatisticalEpochEndAVSs,GroupTasksByIDAndAddress,GetAVSInfoByTaskAddress,GetOperatorOptedUSDValue,GetTaskInfo,Difference,GetAVSUSDValue,Logger,FormatUint
+//@   flag havoc=SetTaskInfo
+//@   before[C20.aee.pertask] SetTaskInfo requires arg_task != nil ==> arg_task.OperatorActivePower != nil &&
+//@        len(arg_task.OperatorActivePower.OperatorPowerList) == len(arg_task.SignedOperators)
+//@   before[C20.aee.found]   Difference requires res_GetTaskInfo_0 != nil
+//@ loop #1
+//@   invariant true
+//@ loop #2
+//@   invariant len(operatorPowers) == len(signedOperatorList)
